@@ -2,8 +2,8 @@
    implementation was observed to do, compared with the model by vm_compute. *)
 From Coq Require Import String List NArith ZArith Bool.
 From J5V.lib Require Import Outcome Corr Json JsonPrint Base64 Civil Decimal.
-From J5V.model Require Import CodecTypes CodecEnc CodecEncDec CodecDecScalar CodecDec.
-From J5V.proofs Require Import CodecEncDecProofs.
+From J5V.model Require Import CodecTypes CodecEnc CodecEncDec CodecDecScalar CodecDec CodecEnvDerive CodecFloatInt.
+From J5V.proofs Require Import CodecEncDecProofs CodecEncRep.
 Import ListNotations.
 Local Open Scope N_scope.
 Local Open Scope bool_scope.
@@ -86,7 +86,19 @@ Inductive enc_case :=
          (floats : list (bool * N * bytes)) (inner : list (bytes * bytes * option bytes))
          (pf : list (bytes * (option N * option N))) (pt : list (bytes * (Z * Z)))
          (strict : bool) (out : bytes) (back : option msg) (xcheck : bool)
-         (aback : option (list (bytes * bytes * option bytes))).
+         (aback : option (list (bytes * bytes * option bytes)))
+         (* rep: the harness's statement that (environment, message) satisfy the preconditions of
+            C01_full_statement_decided (env_static_b and rep_root_b); the deciders must agree *)
+         (rep : bool)
+(* the reflector's derivation steps: re is the raw environment of a root type (ObjectSchema.Properties
+   with flatten marks, proto enum value names), e the client environment the real reflector built
+   (ClientProperties, EnumSchema.Options): CodecEnvDerive.derive_schema recomputes every schema of e *)
+| CEnv (re : rawenv) (e : env)
+(* strconv on the sub-domain where the float laws are proved of a model (CodecFloatInt): FormatFloat(v,'g',-1,w)
+   of an integer-valued float of magnitude < small_bound, and ParseFloat of that text; CFloatOut: a float
+   outside the sub-domain, on which the model answers None *)
+| CFloatInt (is32 : bool) (bits : N) (txt : bytes) (back : option N)
+| CFloatOut (is32 : bool) (bits : N).
 
 Fixpoint table_get {A} (tbl : list (bytes * A)) (k : bytes) : option A :=
   match tbl with
@@ -120,14 +132,6 @@ Definition zzz_eqb (a b : Z * Z * Z) : bool :=
   Z.eqb (fst (fst a)) (fst (fst b)) && Z.eqb (snd (fst a)) (snd (fst b)) && Z.eqb (snd a) (snd b).
 Definition is_some {A} (o : option A) : bool := match o with Some _ => true | None => false end.
 
-(* the environments of the run satisfy the structural assumption of the theorems:
-   members of oneof schemas carry a proto path *)
-Definition oneofs_flat_b (e : env) : bool :=
-  forallb (fun ns => match snd ns with
-                     | SOneof ps => forallb (fun p => match p_path p with [] => false | _ => true end) ps
-                     | _ => true
-                     end) e.
-
 (* Codec option WithProtoToAny of a case: None = default codec; Some tbl = the option is on and tbl
    answers (type name, payload text) -> proto bytes (None: the conversion fails) *)
 Definition any_back_table (t : option (list (bytes * bytes * option bytes))) : option (bytes -> bytes -> outcome bytes) :=
@@ -136,14 +140,10 @@ Definition any_back_table (t : option (list (bytes * bytes * option bytes))) : o
   | Some tbl => Some (inner_table tbl)
   end.
 
-(* every static hypothesis of the round-trip theorem, decided on an environment of the run
-   (soundness of the deciders: proofs/CodecEncDecProofs.v) *)
-Definition env_static_ok (e : env) : bool :=
-  oneofs_flat_b e && oneof_names_ok_b e && env_items_ok_b e &&
-  forallb (fun ns => match snd ns with
-                     | SObject ps | SOneof ps => props_ok_b e ps
-                     | SEnum _ _ => true
-                     end) e.
+(* every static hypothesis of the round-trip theorem, decided on an environment of the run:
+   CodecEncRep.env_static_b (oneofs_flat, oneof_names_ok, env_items_ok, enums_ok, props_ok of every
+   property list; soundness env_static_b_sound) *)
+Definition env_static_ok (e : env) : bool := env_static_b e.
 
 Definition enc_check (c : enc_case) : bool :=
   match c with
@@ -187,10 +187,21 @@ Definition enc_check (c : enc_case) : bool :=
   | CDateParse s r => option_eqb zzz_eqb (date_from_string s) r
   | CValid s valid => Bool.eqb (is_some (strict_parse s)) valid
   | CDecimal s r => opt_bytes_eqb (dec_normalise s) r
-  | CRound e static root m floats inner pf pt strict out back xcheck aback =>
+  | CEnv re e => env_derived_b re e
+  | CFloatInt is32 bits txt back =>
+      match fmt_small is32 bits with
+      | Some t => bytes_eqb t txt && option_eqb N.eqb (parse_small is32 txt) back && option_eqb N.eqb back (Some bits)
+      | None => false
+      end
+  | CFloatOut is32 bits => match fmt_small is32 bits with None => true | Some _ => false end
+  | CRound e static root m floats inner pf pt strict out back xcheck aback rep =>
       (* the harness states whether the environment is inside the theorem's static hypotheses
          (it knows one shape that is not); the decider must agree *)
       Bool.eqb (env_static_ok e) static &&
+      (* ... and whether the message is inside the theorem's precondition rep_root (decided by
+         rep_root_b, sound: CodecEncRep.rep_root_b_sound) *)
+      Bool.eqb (static && rep_root_b (inner_table inner) print (any_back_table aback) e
+                            (S (pval_depth (VMsg m))) root m) rep &&
       match encode (float_table floats) (inner_table inner) e root m with
       | Ok b =>
           (if strict then bytes_eqb b out
